@@ -1,6 +1,6 @@
 CONSTANTS
   Name = {"a", "b"}
-  Kind = {"skip", "none"}
+  Kind = {"skip", "hash", "none"}
   MaxV = 2
   MaxStops = 4
   MaxPage = 6
